@@ -24,6 +24,24 @@ type av1Obu struct {
 	hasSize   bool
 	reserved1 bool
 	payload   []byte
+	// width in bytes of the obu_size field: 0 = minimal (what every encoder that knows the length up
+	// front writes), w > 0 = exactly w LEB128 bytes, padded with 0x80 groups (AV1 spec 4.10.5 allows
+	// up to 8; encoders that reserve the field before the OBU length is known write a fixed width)
+	szw int
+}
+
+// av1PadLeb: n in exactly w LEB128 bytes (mirrors Spec.Av1Rtp.padLeb, also where n does not fit).
+func av1PadLeb(n uint64, w int) []byte {
+	out := make([]byte, 0, w)
+	for i := 0; i < w; i++ {
+		b := byte(n % 128)
+		n /= 128
+		if i < w-1 {
+			b += 128
+		}
+		out = append(out, b)
+	}
+	return out
 }
 
 func av1OwnLeb(n uint64) []byte {
@@ -54,7 +72,11 @@ func (o *av1Obu) wire() []byte {
 		out = append(out, o.ext[0]*32+o.ext[1]*8+o.ext[2])
 	}
 	if o.hasSize {
-		out = append(out, av1OwnLeb(uint64(len(o.payload)))...)
+		if o.szw > 0 {
+			out = append(out, av1PadLeb(uint64(len(o.payload)), o.szw)...)
+		} else {
+			out = append(out, av1OwnLeb(uint64(len(o.payload)))...)
+		}
 	}
 	return append(out, o.payload...)
 }
@@ -85,6 +107,36 @@ func av1WriteObus(t *Toks, os []av1Obu) {
 	}
 }
 
+// av1WriteObusW: every OBU followed by the width of its size field (c13.rt)
+func av1WriteObusW(t *Toks, os []av1Obu) {
+	t.Nat(len(os))
+	for i := range os {
+		av1WriteHdr(t, os[i].typ, os[i].ext, os[i].hasSize, os[i].reserved1)
+		t.Bytes(os[i].payload)
+		t.Nat(os[i].szw)
+	}
+}
+
+// av1MinWidth: bytes of the minimal LEB128 encoding of n.
+func av1MinWidth(n int) int { return len(av1OwnLeb(uint64(n))) }
+
+// av1PadWidths gives a share of the OBUs that carry a size field a padded one: any width from the
+// minimal one up to 8 (the widest the AV1 specification allows), the fixed widths encoders reserve
+// (2, 4, 8) more often.  `all` pads every size field.
+func av1PadWidths(r *Rand, os []av1Obu, all bool) {
+	for i := range os {
+		if !os[i].hasSize || !(all || r.Chance(1, 2)) {
+			continue
+		}
+		lo := av1MinWidth(len(os[i].payload))
+		w := r.Pick(2, 4, 8, r.Range(lo, 8), r.Range(lo, 8), lo+1)
+		if w < lo {
+			w = lo
+		}
+		os[i].szw = w
+	}
+}
+
 func av1WriteLibHdr(t *Toks, h *obu.Header, err error) {
 	if err != nil || h == nil {
 		t.Err("other")
@@ -109,7 +161,34 @@ type av1View struct {
 }
 
 // observeAV1Rt runs Payload and both receive paths and writes RtObs.
-func observeAV1Rt(o *Toks, mtu uint16, stream []byte) (payloads [][]byte, panicked bool) {
+func observeAV1Rt(c *Case, mtu uint16, stream []byte) (payloads [][]byte, panicked bool) {
+	o := &c.O
+	// How the receiver holds the packets.  A third of the cases give every packet its own slice that
+	// is never touched again; the others read every packet into ONE receive buffer (a window of a
+	// larger array, as a network read loop does) that the next packet overwrites, half of those also
+	// wipe it once the results of the call have been taken out.  What AV1Packet shows and what
+	// ReadFrames / AV1Depacketizer return for a packet is copied out before the buffer is reused (they
+	// may be views of the packet); what the assembler / depacketizer KEEP for later packets must be
+	// their own, so the OBUs that come out must not depend on the mode.
+	rxMode := c.R.Intn(3)
+	var rxA, rxD []byte
+	if rxMode != 0 {
+		rxA, rxD = make([]byte, 0, 1<<16), make([]byte, 0, 1<<16)
+		c.Tag("rx=one-reused-buffer")
+	}
+	recv := func(rx []byte, p []byte) []byte {
+		if rxMode == 0 {
+			return cloneBytes(p)
+		}
+		return append(rx[:0], p...)
+	}
+	done := func(b []byte) {
+		if rxMode == 2 {
+			for i := range b {
+				b[i] = 0xEE
+			}
+		}
+	}
 	var views []av1View
 	var frames [][][]byte
 	type dres struct {
@@ -127,7 +206,8 @@ func observeAV1Rt(o *Toks, mtu uint16, stream []byte) (payloads [][]byte, panick
 		dep := &codecs.AV1Depacketizer{}
 		for _, p := range payloads {
 			pkt := &codecs.AV1Packet{}
-			_, err := pkt.Unmarshal(cloneBytes(p))
+			in := recv(rxA, p)
+			_, err := pkt.Unmarshal(in)
 			v := av1View{err: err != nil}
 			var fr [][]byte
 			if err == nil {
@@ -140,8 +220,11 @@ func observeAV1Rt(o *Toks, mtu uint16, stream []byte) (payloads [][]byte, panick
 			}
 			views = append(views, v)
 			frames = append(frames, fr)
-			out, derr := dep.Unmarshal(cloneBytes(p))
+			done(in)
+			din := recv(rxD, p)
+			out, derr := dep.Unmarshal(din)
 			deps = append(deps, dres{derr != nil, cloneBytes(out)})
+			done(din)
 		}
 	})
 	if panicked {
@@ -175,9 +258,15 @@ func observeAV1Rt(o *Toks, mtu uint16, stream []byte) (payloads [][]byte, panick
 func av1RtCase(c *Case, mtu int, os []av1Obu) {
 	stream := av1Serialise(os)
 	c.I.Nat(mtu)
-	av1WriteObus(&c.I, os)
+	av1WriteObusW(&c.I, os)
 	c.I.Bytes(stream)
-	payloads, _ := observeAV1Rt(&c.O, uint16(mtu), stream)
+	payloads, _ := observeAV1Rt(c, uint16(mtu), stream)
+	for i := range os {
+		if os[i].hasSize && os[i].szw > av1MinWidth(len(os[i].payload)) {
+			c.Tag("padded-size-field")
+			break
+		}
+	}
 	if len(os) == 0 || len(payloads) == 0 {
 		c.Trivial()
 	}
@@ -417,11 +506,57 @@ func genAV1Rt(x *Ctx) {
 			av1RtCase(c, mtu, os)
 		})
 	}
-	// outside the hypotheses (no-panic and correspondence only): MTU 0/1, size-less OBU inside
-	for i, n := 0, x.N(600, 20000); i < n; i++ {
+	// size fields that are not minimally encoded (AV1 spec 4.10.5: up to 8 bytes for any value).
+	// grid: one or two OBUs, every width 1..8 that holds the size, sizes around the LEB128 boundaries
+	for _, n := range []int{0, 1, 5, 126, 127, 128, 129, 300, 16383, 16384} {
+		for w := 1; w <= 8; w++ {
+			if w < av1MinWidth(n) {
+				continue
+			}
+			for v := 0; v < 2; v++ {
+				x.Case(func(c *Case) {
+					mtu := c.R.Pick(c.R.Range(2, 12), c.R.Range(13, 64), 200, 1200)
+					o := av1Obu{typ: 6, hasSize: true, payload: c.R.Bytes(n), szw: w}
+					if c.R.Bool() {
+						o.ext = &[3]byte{byte(c.R.Intn(8)), byte(c.R.Intn(4)), 0}
+					}
+					os := []av1Obu{o}
+					if v == 1 {
+						os = append(os, av1Obu{typ: byte(c.R.Pick(6, 3, 2, 8)), hasSize: c.R.Bool(), payload: c.R.Bytes(c.R.Range(0, 9))})
+						if os[1].hasSize && c.R.Bool() {
+							os[1].szw = c.R.Range(1, 8)
+						}
+					}
+					c.Tag("grid-padded-size-field")
+					av1RtCase(c, mtu, os)
+				})
+			}
+		}
+	}
+	// random sequences, a share of (or all) the size fields padded
+	for i, n := 0, x.N(4000, 200000); i < n; i++ {
+		x.Case(func(c *Case) {
+			mtu := c.R.Pick(c.R.Range(2, 8), c.R.Range(2, 64), c.R.Range(2, 64), c.R.Range(100, 300), 200, 1200)
+			os := av1RandObus(c.R, mtu, 8, 4000, false)
+			av1PadWidths(c.R, os, c.R.Chance(1, 4))
+			av1RtCase(c, mtu, os)
+		})
+	}
+	// outside the hypotheses (no-panic and correspondence only): MTU 0/1, size-less OBU inside, size
+	// fields wider than 8 bytes (ReadLeb128's 64-bit accumulator drops the first bytes) or too narrow
+	// for the value (the field then says a smaller size)
+	for i, n := 0, x.N(900, 30000); i < n; i++ {
 		x.Case(func(c *Case) {
 			mtu := c.R.Pick(0, 1, c.R.Range(2, 64))
 			os := av1RandObus(c.R, mtu+2, 5, 300, true)
+			if i%3 == 2 {
+				av1PadWidths(c.R, os, false)
+				for j := range os {
+					if os[j].hasSize && c.R.Chance(1, 3) {
+						os[j].szw = c.R.Pick(1, 9, 10, 12)
+					}
+				}
+			}
 			c.Tag("non-wf")
 			av1RtCase(c, mtu, os)
 		})
@@ -1291,7 +1426,10 @@ type av1PktRes struct {
 	frames        [][]byte
 }
 
-func av1PktCall(pkt *codecs.AV1Packet, asm *frame.AV1, buf []byte) (r av1PktRes) {
+// av1PktCall: Unmarshal, then ReadFrames on the packet — after a successful Unmarshal, and, if `always`,
+// also after Unmarshal refused the payload (the packet then holds whatever the refused call stored:
+// C09 says the calls never panic "however they are interleaved").
+func av1PktCall(pkt *codecs.AV1Packet, asm *frame.AV1, buf []byte, always bool) (r av1PktRes) {
 	var out []byte
 	var err error
 	r.panicked = try(func() { out, err = pkt.Unmarshal(buf) })
@@ -1299,7 +1437,7 @@ func av1PktCall(pkt *codecs.AV1Packet, asm *frame.AV1, buf []byte) (r av1PktRes)
 	r.out = cloneBytes(out)
 	r.z, r.y, r.n, r.w = pkt.Z, pkt.Y, pkt.N, pkt.W
 	r.elems = cloneFrags(pkt.OBUElements)
-	if !r.panicked && !r.err {
+	if !r.panicked && (!r.err || always) {
 		var fr [][]byte
 		r.fpanic = try(func() { fr, _ = asm.ReadFrames(pkt) })
 		r.frames = cloneFrags(fr)
@@ -1307,15 +1445,24 @@ func av1PktCall(pkt *codecs.AV1Packet, asm *frame.AV1, buf []byte) (r av1PktRes)
 	return r
 }
 
-func av1PktHist(c *Case, reuse bool, payloads [][]byte) {
+// after: 0 = ReadFrames only after a successful Unmarshal, 1 = after every Unmarshal that returned,
+// 2 = a coin per call.
+func av1PktHist(c *Case, reuse bool, after int, payloads [][]byte) {
+	always := make([]bool, len(payloads))
+	for i := range always {
+		always[i] = after == 1 || (after == 2 && c.R.Bool())
+	}
+	if after != 0 {
+		c.Tag("ReadFrames-after-refused-Unmarshal")
+	}
 	c.I.Bool(reuse).Nat(len(payloads))
-	for _, p := range payloads {
-		c.I.OBytes(p)
+	for i, p := range payloads {
+		c.I.OBytes(p).Bool(always[i])
 	}
 	pkt, tpkt := &codecs.AV1Packet{}, &codecs.AV1Packet{}
 	asm, tasm := &frame.AV1{}, &frame.AV1{}
 	c.O.Nat(len(payloads))
-	for _, p := range payloads {
+	for i, p := range payloads {
 		if !reuse {
 			pkt, tpkt = &codecs.AV1Packet{}, &codecs.AV1Packet{}
 		}
@@ -1323,8 +1470,8 @@ func av1PktHist(c *Case, reuse bool, payloads [][]byte) {
 		if p != nil {
 			buf = cloneBytes(p)
 		}
-		r := av1PktCall(pkt, asm, buf)
-		tw := av1PktCall(tpkt, tasm, cloneBytes(p))
+		r := av1PktCall(pkt, asm, buf, always[i])
+		tw := av1PktCall(tpkt, tasm, cloneBytes(p), always[i])
 		if !reuse {
 			// AV1Packet.OBUElements are views into the packet by design; the assembler must own
 			// what it keeps: overwrite the packet once this call's outputs have been recorded
@@ -1370,18 +1517,18 @@ func genAV1C09Pkt(x *Ctx) {
 	}
 	x.Case(func(c *Case) {
 		c.Tag("literal")
-		av1PktHist(c, false, [][]byte{{0x50, 0x30, 0x01, 0x02, 0x03}, {0x90, 0x04, 0x05}})
+		av1PktHist(c, false, 0, [][]byte{{0x50, 0x30, 0x01, 0x02, 0x03}, {0x90, 0x04, 0x05}})
 	})
 	x.Case(func(c *Case) {
 		c.Tag("literal")
-		av1PktHist(c, true, [][]byte{nil, {}, {0x10}, {0x10, 0x30}, {0x20, 0x01, 0x0a, 0x30, 0x01}})
+		av1PktHist(c, true, 1, [][]byte{nil, {}, {0x10}, {0x10, 0x30}, {0x20, 0x01, 0x0a, 0x30, 0x01}})
 	})
 	for g := 0; g < 15; g++ {
 		g := g
 		x.Case(func(c *Case) {
 			c.Tag("long-leb128-length-field")
 			ps := av1LongLebPayloads(c.R)
-			av1PktHist(c, g%2 == 1, ps[g*32:(g+1)*32])
+			av1PktHist(c, g%2 == 1, g%3, ps[g*32:(g+1)*32])
 		})
 	}
 	const run = 32
@@ -1390,7 +1537,8 @@ func genAV1C09Pkt(x *Ctx) {
 		if j > len(all) {
 			j = len(all)
 		}
-		x.Case(func(c *Case) { c.Tag("exhaustive<=2"); av1PktHist(c, false, all[i:j]) })
+		x.Case(func(c *Case) { c.Tag("exhaustive<=2"); av1PktHist(c, false, 0, all[i:j]) })
+		x.Case(func(c *Case) { c.Tag("exhaustive<=2"); av1PktHist(c, false, 1, all[i:j]) })
 	}
 	if x.Thorough() {
 		for a := 0; a < 256; a++ {
@@ -1401,7 +1549,7 @@ func genAV1C09Pkt(x *Ctx) {
 						ps[d] = []byte{byte(a), byte(b), byte(d)}
 					}
 					c.Tag("exhaustive=3")
-					av1PktHist(c, false, ps)
+					av1PktHist(c, false, 2, ps)
 				})
 			}
 		}
@@ -1414,8 +1562,33 @@ func genAV1C09Pkt(x *Ctx) {
 				ps = append(ps, []byte{0x50, 0x30, 0x01, 0x02}, []byte{byte(a), byte(b)})
 			}
 			c.Tag("live-buffer+2")
-			av1PktHist(c, false, ps)
+			av1PktHist(c, false, 2, ps)
 		})
+	}
+	// every aggregation header byte in front of bodies AV1Packet.Unmarshal refuses for each of its
+	// reasons (element longer than the packet, unterminated LEB128, one-byte payload, Z with N) and of
+	// bodies it accepts, ReadFrames called after every one of them; between the refusals a fragment is
+	// left with the assembler (Y = 1) and a continuation (Z = 1) arrives.  Fresh AV1Packet per payload
+	// and one reused AV1Packet.
+	for _, reuse := range []bool{false, true} {
+		for h0 := 0; h0 < 256; h0 += 8 {
+			x.Case(func(c *Case) {
+				var ps [][]byte
+				for h := h0; h < h0+8; h++ {
+					for _, body := range [][]byte{{0x05, 0x01}, {0xff}, {0x80, 0x80}, {}, {0x00}, {0x01, 0xaa}, {0x02, 0xaa, 0xbb, 0x01}} {
+						ps = append(ps, append([]byte{byte(h)}, body...))
+						switch c.R.Intn(4) {
+						case 0:
+							ps = append(ps, []byte{0x50, 0x30, 0x01, 0x02})
+						case 1:
+							ps = append(ps, []byte{0x90, 0x07})
+						}
+					}
+				}
+				c.Tag("refused-after-every-header")
+				av1PktHist(c, reuse, 1, ps)
+			})
+		}
 	}
 	// W = 0 bodies with 254..258 zero-length elements (the element counter is compared as a byte)
 	for k := 250; k <= 260; k++ {
@@ -1424,7 +1597,7 @@ func genAV1C09Pkt(x *Ctx) {
 				p := append([]byte{w}, make([]byte, k)...)
 				p = append(p, 0x01, 0xaa, 0x02, 0xbb)
 				c.Tag("many-elements")
-				av1PktHist(c, false, [][]byte{p})
+				av1PktHist(c, false, 0, [][]byte{p})
 			})
 		}
 	}
@@ -1434,17 +1607,18 @@ func genAV1C09Pkt(x *Ctx) {
 			if reuse {
 				c.Tag("reused-AV1Packet")
 			}
+			after := c.R.Intn(3)
 			if c.R.Chance(1, 4) {
 				var ps [][]byte
 				for k := c.R.Range(1, 10); k > 0; k-- {
 					ps = append(ps, av1Garbage(c.R))
 				}
 				c.Tag("garbage")
-				av1PktHist(c, reuse, ps)
+				av1PktHist(c, reuse, after, ps)
 				return
 			}
 			c.Tag("mutated-stream")
-			av1PktHist(c, reuse, av1Stream(c.R))
+			av1PktHist(c, reuse, after, av1Stream(c.R))
 		})
 	}
 }
